@@ -21,8 +21,11 @@ raises exactly when the model says so, and leaves related states.
   leaf_set_dist_params     Composite.set_distribution_params, leaf   Params.set_dists_for / u_set_distribution_params
   leaf_get_dist_params     Composite.get_distribution_params, leaf   Params.dists_get_params (before flatten)
 
-Fail-closed: every statement / expression form that is not listed in `DM` / `Leaf` raises `Untranslatable`.
-Python local `x` becomes the Gallina binder `x_`; no emitted global name or function parameter ends in `_`.
+Fail-closed: every statement / expression form that is not listed in `DM` / `LeafM` raises `Untranslatable`.
+Python local `x` becomes the Gallina binder `x_`; no emitted global name or function parameter ends in `_` except the
+threaded states `self_` (the Distribution object) and `distributions_` (the dict of a leaf; a Python local of that name is
+rejected).  A local variable may not be bound to an attribute of the object without `.copy()` (`old = self._func.keywords`
+would be an alias that changes with the object: rejected), and `D.update(...)` is only accepted on a fresh copy.
 
 What the translator itself ASSUMES (trusted reading)
  * a `Distribution` object is the record `dobj K` of NumpyDist.v, threaded through the statements as `self_`:
@@ -105,6 +108,8 @@ def _method(cls, name, deco):
 
 
 def _bind(term: str, pat: str, cont: str) -> str:
+    if term.startswith(("if ", "match ")):
+        term = f"({term})"
     return f"match {term} with\n  | (self_, inl e) => (self_, inl e)\n  | (self_, inr {pat}) =>\n  {cont}\n  end"
 
 
@@ -418,7 +423,7 @@ class DM:
             self.env = dict(saved)
             h = self.block(list(s.handlers[0].body), None, s.handlers[0].name)
             self.env = saved
-            return (f"match {body} with\n  | (self_, inl DValue) =>\n  {h}\n  | (self_, inl e) => (self_, inl e)\n"
+            return (f"match ({body}) with\n  | (self_, inl DValue) =>\n  {h}\n  | (self_, inl e) => (self_, inl e)\n"
                     f"  | (self_, inr _) =>\n  {nxt()}\n  end")
         if isinstance(s, ast.For):
             return self.loop(s, rest, fall, handler_var)
@@ -445,6 +450,10 @@ class DM:
                 self.env[a], self.env[b] = OFIRST, ARGS
                 return f"let '({g(a)}, {g(b)}) := Params.popfirst {src} in\n  {nxt()}"
             if isinstance(tg, ast.Name):
+                if _attr_chain(v) is not None and _attr_chain(v)[0] == "self" and tg.id != "_":
+                    # e.g. `old = self._func.keywords` without .copy(): the local would change with the object
+                    raise Untranslatable(f"{tg.id} = {ast.unparse(v)}: a local alias of an attribute of the object (copy it)")
+
                 def assign(t, ty):
                     if tg.id == "_":
                         return nxt()
@@ -619,9 +628,9 @@ def translate_get_params() -> str:
             + "Lemma gen_get_params_np : forall K (o : dobj K), gen_get_params o = np_get_params o.\nProof. intros. reflexivity. Qed.\n"
               "Lemma gen_get_params_eq : forall W func c o, dist_repr W func c o -> gen_get_params o = (o, inr (cell_kw c)).\n"
               "Proof. intros W func c o H. rewrite gen_get_params_np. apply (np_get_params_cell W func). exact H. Qed.\n"
-              "Lemma gen_get_params_params : forall maxt f kws o, pdist_repr maxt (Param f kws) o ->\n"
-              "  exists l, gen_get_params o = (o, inr l) /\\ pdict_of_vals l = Some (dist_kw_dict kws).\n"
-              "Proof. intros maxt f kws o H. rewrite gen_get_params_np. apply (np_get_params_params maxt). exact H. Qed.\n")
+              "Lemma gen_get_params_params : forall maxt d o, pdist_repr maxt d o ->\n"
+              "  gen_get_params o = (o, inr (vals (dist_kws d))) /\\ pdict_of_vals (vals (dist_kws d)) = Some (dist_kw_dict (dist_kws d)).\n"
+              "Proof. intros maxt d o H. rewrite gen_get_params_np. split; [apply (np_get_params_params maxt); exact H | apply pdict_of_vals_vals]. Qed.\n")
 
 
 def translate_set_params() -> str:
@@ -643,6 +652,248 @@ def translate_set_params() -> str:
               "Proof. intros maxt d o a kw H Hn. rewrite gen_set_params_np. apply np_set_params_params; assumption. Qed.\n")
 
 
+# ----------------------------------------------------------------------------------------------------------------------
+# Composite.set_distribution_params / get_distribution_params: the leaf branch
+# ----------------------------------------------------------------------------------------------------------------------
+PARGS, PKWARGS, SPLIT, PDICT, NAMES = "args", "kwargs", "list (string * kwargs)", "pdict", "list string"
+
+
+class LeafM:
+    """the dict `self._distributions` (T-stage -> object) is threaded as `distributions_`, inside a loop body the object
+       top level   A, B = unflatten_and_split(KWARGS, expected_keys=self._distributions.keys()) | NAME = {}
+                   | for T, D in self._distributions.items(): BODY | if FLAG or not as_dict: NAME = flatten(NAME)
+                   | return NAME | return NAME if as_dict else NAME.values()
+       loop body   if not D.is_updateable: continue | X = G.copy() | X.update(KW.get(T, {}))
+                   | ARGS = D.set_params(*ARGS, **X) | PARAMS[T] = D.get_params(as_flat=FLAG)"""
+    ST = "distributions"
+
+    def __init__(self, env: dict, ret_ty: str, const: dict):
+        self.env = dict(env)
+        self.ret_ty = ret_ty
+        self.const = dict(const)
+        self.owned = set()
+        self.n = 0
+        if self.ST in self.env:
+            raise Untranslatable(f"a local variable is called {self.ST}")
+
+    def fresh(self) -> str:
+        self.n += 1
+        return f"x{self.n}"
+
+    @staticmethod
+    def bind(st: str, term: str, pat: str, cont: str) -> str:
+        return f"match {term} with\n  | ({st}, inl e) => ({st}, inl e)\n  | ({st}, inr {pat}) =>\n  {cont}\n  end"
+
+    def name(self, e, ty) -> str:
+        if not (isinstance(e, ast.Name) and self.env.get(e.id) == ty):
+            raise Untranslatable(f"a variable of type {ty} expected: {ast.dump(e)[:120]}")
+        return g(e.id)
+
+    def flag(self, e) -> str:
+        if isinstance(e, ast.Name) and e.id in self.const:
+            return self.const[e.id]
+        if isinstance(e, ast.Name) and self.env.get(e.id) == BOOL:
+            return g(e.id)
+        if isinstance(e, ast.UnaryOp) and isinstance(e.op, ast.Not):
+            return f"(negb {self.flag(e.operand)})"
+        if isinstance(e, ast.BoolOp) and isinstance(e.op, ast.Or):
+            return "(" + " || ".join(self.flag(x) for x in e.values) + ")"
+        raise Untranslatable(f"flag expression {ast.dump(e)[:160]}")
+
+    def top(self, stmts) -> str:
+        st = g(self.ST)
+        if not stmts:
+            raise Untranslatable("the leaf branch falls through")
+        s, rest = stmts[0], stmts[1:]
+        if isinstance(s, ast.Return):
+            v = s.value
+            if rest or v is None:
+                raise Untranslatable("code after return / bare return")
+            if isinstance(v, ast.IfExp) and isinstance(v.test, ast.Name) and self.const.get(v.test.id) == "true":
+                v = v.body
+            if not (isinstance(v, ast.Name) and self.env.get(v.id) == self.ret_ty):
+                raise Untranslatable(f"return of a variable of type {self.ret_ty} expected")
+            return f"({st}, inr {g(v.id)})"
+        if isinstance(s, ast.Assign) and len(s.targets) == 1:
+            tg, v = s.targets[0], s.value
+            if (isinstance(tg, ast.Tuple) and len(tg.elts) == 2 and all(isinstance(x, ast.Name) for x in tg.elts)
+                    and isinstance(v, ast.Call) and isinstance(v.func, ast.Name) and v.func.id == "unflatten_and_split"
+                    and len(v.args) == 1 and len(v.keywords) == 1 and v.keywords[0].arg == "expected_keys"):
+                kw = self.name(v.args[0], PKWARGS)
+                k = v.keywords[0].value
+                if not (isinstance(k, ast.Call) and not k.args and not k.keywords and _attr_chain(k.func) == ["self", "_distributions", "keys"]):
+                    raise Untranslatable("expected_keys is not self._distributions.keys()")
+                a, b = (x.id for x in tg.elts)
+                if a == b:
+                    raise Untranslatable("unflatten_and_split: the two targets coincide")
+                self.env[a], self.env[b] = SPLIT, PKWARGS
+                return f"let '({g(a)}, {g(b)}) := Params.unflatten_and_split {kw} (map fst {st}) in\n  {self.top(rest)}"
+            if isinstance(tg, ast.Name) and isinstance(v, ast.Dict) and not v.keys:
+                self.env[tg.id] = PDICT
+                return f"let {g(tg.id)} := ([] : pdict) in\n  {self.top(rest)}"
+        if (isinstance(s, ast.If) and not s.orelse and len(s.body) == 1 and isinstance(s.body[0], ast.Assign)
+                and len(s.body[0].targets) == 1 and isinstance(s.body[0].targets[0], ast.Name)):
+            nm, v = s.body[0].targets[0].id, s.body[0].value
+            ok = (self.env.get(nm) == PDICT and isinstance(v, ast.Call) and isinstance(v.func, ast.Name) and v.func.id == "flatten"
+                  and len(v.args) == 1 and not v.keywords and isinstance(v.args[0], ast.Name) and v.args[0].id == nm)
+            if not ok:
+                raise Untranslatable("`if FLAG: X = flatten(X)` expected")
+            return f"let {g(nm)} := if {self.flag(s.test)} then gen_flatten fuel {g(nm)} [] else {g(nm)} in\n  {self.top(rest)}"
+        if isinstance(s, ast.For):
+            ok = (not s.orelse and isinstance(s.iter, ast.Call) and not s.iter.args and not s.iter.keywords
+                  and _attr_chain(s.iter.func) == ["self", "_distributions", "items"] and isinstance(s.target, ast.Tuple)
+                  and len(s.target.elts) == 2 and all(isinstance(x, ast.Name) for x in s.target.elts))
+            if not ok:
+                raise Untranslatable("loop is not `for T, D in self._distributions.items()`")
+            key, obj = (x.id for x in s.target.elts)
+            if key in self.env or obj in self.env or key == obj or self.ST in (key, obj):
+                raise Untranslatable("loop variables shadow other variables")
+            if any(isinstance(n, (ast.Return, ast.Break, ast.Raise, ast.Try, ast.For)) for x in s.body for n in ast.walk(x)):
+                raise Untranslatable("return / break / raise / try / for inside the loop")
+            if any(isinstance(n, ast.Attribute) and isinstance(n.value, ast.Name) and n.value.id == "self" for x in s.body for n in ast.walk(x)):
+                raise Untranslatable("the loop body uses self")
+            assigned = _assigned(s.body)
+            if {key, obj} & set(assigned):
+                raise Untranslatable("the loop variables are assigned in the body")
+            carried = [n for n in assigned if n in self.env]
+            local = [n for n in assigned if n not in self.env]
+            if len(carried) != 1:
+                raise Untranslatable(f"loop-carried variables {carried}")
+            if ({key, obj} | set(local)) & _reads(rest):
+                raise Untranslatable("a variable of the loop body is used after the loop")
+            c = carried[0]
+            before = dict(self.env)
+            self.env[key] = STR
+            body = self.body(list(s.body), obj, key, c)
+            if self.env[c] != before[c]:
+                raise Untranslatable(f"the type of {c} changes in the loop")
+            self.env = before
+            return self.bind(st, f"py_for_items_d (fun {g(key)} {g(obj)} {g(c)} =>\n  {body}) {st} {g(c)}", g(c), self.top(rest))
+        raise Untranslatable(f"statement {type(s).__name__}: {ast.dump(s)[:160]}")
+
+    def body(self, stmts, obj, key, c) -> str:
+        o = g(obj)
+        if not stmts:
+            return f"({o}, inr {g(c)})"
+        s, rest = stmts[0], stmts[1:]
+        nxt = lambda: self.body(rest, obj, key, c)  # noqa: E731
+        # if not D.is_updateable: continue
+        if (isinstance(s, ast.If) and not s.orelse and len(s.body) == 1 and isinstance(s.body[0], ast.Continue)
+                and isinstance(s.test, ast.UnaryOp) and isinstance(s.test.op, ast.Not)
+                and _attr_chain(s.test.operand) == [obj, "is_updateable"]):
+            x = self.fresh()
+            return self.bind(o, f"is_updateable {o}", x, f"if (negb {x}) then ({o}, inr {g(c)})\n  else\n  {nxt()}")
+        if isinstance(s, ast.Assign) and len(s.targets) == 1:
+            tg, v = s.targets[0], s.value
+            # X = G.copy()
+            if (isinstance(tg, ast.Name) and isinstance(v, ast.Call) and not v.args and not v.keywords
+                    and isinstance(v.func, ast.Attribute) and v.func.attr == "copy"):
+                if tg.id in self.env and self.env[tg.id] != PKWARGS:
+                    raise Untranslatable(f"the type of {tg.id} changes")
+                t = self.name(v.func.value, PKWARGS)
+                self.env[tg.id] = PKWARGS
+                self.owned.add(tg.id)
+                return f"let {g(tg.id)} := {t} in\n  {nxt()}"
+            # ARGS = D.set_params(*ARGS, **X)
+            if isinstance(tg, ast.Name) and isinstance(v, ast.Call) and _attr_chain(v.func) == [obj, "set_params"]:
+                ok = (len(v.args) == 1 and isinstance(v.args[0], ast.Starred) and len(v.keywords) == 1 and v.keywords[0].arg is None
+                      and self.env.get(tg.id) == PARGS)
+                if not ok:
+                    raise Untranslatable("expected ARGS = D.set_params(*ARGS, **KWARGS)")
+                a, kw = self.name(v.args[0].value, PARGS), self.name(v.keywords[0].value, PKWARGS)
+                x = self.fresh()
+                return self.bind(o, f"set_params {o} {a} {kw}", x, f"let {g(tg.id)} := {x} in\n  {nxt()}")
+            # PARAMS[T] = D.get_params(as_flat=FLAG)
+            if (isinstance(tg, ast.Subscript) and isinstance(tg.value, ast.Name) and self.env.get(tg.value.id) == PDICT
+                    and isinstance(tg.slice, ast.Name) and tg.slice.id == key
+                    and isinstance(v, ast.Call) and _attr_chain(v.func) == [obj, "get_params"]):
+                if v.args or len(v.keywords) != 1 or v.keywords[0].arg != "as_flat":
+                    raise Untranslatable("expected D.get_params(as_flat=FLAG)")
+                x, d = self.fresh(), g(tg.value.id)
+                return self.bind(o, f"get_params {o} {self.flag(v.keywords[0].value)}", x,
+                                 f"let {d} := kw_set [{g(key)}] (Node {x}) {d} in\n  {nxt()}")
+        # X.update(KW.get(T, {}))
+        if (isinstance(s, ast.Expr) and isinstance(s.value, ast.Call) and isinstance(s.value.func, ast.Attribute)
+                and s.value.func.attr == "update" and isinstance(s.value.func.value, ast.Name)
+                and len(s.value.args) == 1 and not s.value.keywords):
+            x = s.value.func.value.id
+            if self.env.get(x) != PKWARGS or x not in self.owned:
+                raise Untranslatable(f"{x}.update(...): not a fresh copy of a flat dict")
+            a = s.value.args[0]
+            ok = (isinstance(a, ast.Call) and isinstance(a.func, ast.Attribute) and a.func.attr == "get" and not a.keywords
+                  and len(a.args) == 2 and isinstance(a.args[0], ast.Name) and a.args[0].id == key
+                  and isinstance(a.args[1], ast.Dict) and not a.args[1].keys)
+            if not ok:
+                raise Untranslatable("update with something else than KW.get(T, {})")
+            sp = self.name(a.func.value, SPLIT)
+            return f"let {g(x)} := kw_update (sub_kwargs {g(key)} {sp}) {g(x)} in\n  {nxt()}"
+        raise Untranslatable(f"loop statement {type(s).__name__}: {ast.dump(s)[:160]}")
+
+
+def _leaf_branch(fn):
+    """the statements of the method with `if self._is_distribution_leaf: A [else: B]` replaced by A"""
+    st = _strip_doc(fn.body)
+    out, seen = [], 0
+    for s in st:
+        if isinstance(s, ast.If) and _attr_chain(s.test) == ["self", "_is_distribution_leaf"]:
+            seen += 1
+            out.extend(s.body)
+            if s.body and isinstance(s.body[-1], ast.Return):
+                break                         # what follows is the branch for composites with children
+        else:
+            out.append(s)
+    if seen != 1:
+        raise Untranslatable("expected exactly one `if self._is_distribution_leaf:`")
+    return out
+
+
+def _composite():
+    tree, _ = _dist_cls()
+    for f in ("unflatten_and_split", "flatten"):
+        if not any(isinstance(n, ast.ImportFrom) and n.module == "lymph.utils" and any(a.name == f and a.asname is None for a in n.names)
+                   for n in tree.body):
+            raise Untranslatable(f"{f} is not imported from lymph.utils")
+    return _cls(tree, "Composite")
+
+
+def translate_leaf_set() -> str:
+    fn = _method(_composite(), "set_distribution_params", None)
+    _params(fn, ["self"], vararg="args", kwarg="kwargs")
+    m = LeafM({"args": PARGS, "kwargs": PKWARGS}, PARGS, {})
+    body = m.top(_leaf_branch(fn))
+    return ("Definition gen_leaf_set_distribution_params {O} (is_updateable : O -> O * dres bool)\n"
+            "    (set_params : O -> args -> kwargs -> O * dres args)\n"
+            "    (distributions_ : list (string * O)) (args_ : args) (kwargs_ : kwargs) : list (string * O) * dres args :=\n  "
+            + body + ".\n"
+            "Lemma gen_leaf_set_distribution_params_np : forall O (iu : O -> O * dres bool) (sp : O -> args -> kwargs -> O * dres args) ds a kw,\n"
+            "  gen_leaf_set_distribution_params iu sp ds a kw = np_leaf_set_distribution_params iu sp ds a kw.\n"
+            "Proof. intros. reflexivity. Qed.\n"
+            "Lemma gen_leaf_set_distribution_params_eq : forall u objs a kw, dists_repr (u_maxt u) (u_dists u) objs -> dists_nodup (u_dists u) ->\n"
+            "  exists objs', gen_leaf_set_distribution_params pobj_is_updateable pobj_set_params objs a kw\n"
+            "                = (objs', match snd (u_set_distribution_params u a kw) with None => inl DValue | Some a' => inr a' end)\n"
+            "                /\\ dists_repr (u_maxt u) (u_dists (fst (u_set_distribution_params u a kw))) objs'.\n"
+            "Proof. intros u objs a kw H Hn. rewrite gen_leaf_set_distribution_params_np. apply np_leaf_set_distribution_params_uni; assumption. Qed.\n")
+
+
+def translate_leaf_get() -> str:
+    from .translate5 import _flatten_def, _utils_tree
+    fn = _method(_composite(), "get_distribution_params", None)
+    _params(fn, ["self", "as_dict", "as_flat"], [True, True])
+    m = LeafM({"as_flat": BOOL}, PDICT, {"as_dict": "true"})
+    body = m.top(_leaf_branch(fn))
+    return (_flatten_def(_utils_tree("flatten"))
+            + "Definition gen_leaf_get_distribution_params {O} (fuel : nat) (is_updateable : O -> O * dres bool)\n"
+            "    (get_params : O -> bool -> O * dres pdict)\n"
+            "    (distributions_ : list (string * O)) (as_flat_ : bool) : list (string * O) * dres pdict :=\n  "
+            + body + ".\n"
+            "Lemma gen_leaf_get_distribution_params_np : forall O fuel (iu : O -> O * dres bool) (gp : O -> bool -> O * dres pdict) ds fl,\n"
+            "  gen_leaf_get_distribution_params fuel iu gp ds fl = np_leaf_get_distribution_params fuel iu gp ds fl.\n"
+            "Proof. intros. reflexivity. Qed.\n"
+            "Lemma gen_leaf_get_distribution_params_eq : forall fuel maxt ds objs fl, dists_repr maxt ds objs -> dists_nodup ds ->\n"
+            "  gen_leaf_get_distribution_params (S (S fuel)) pobj_is_updateable pobj_get_params objs fl = (objs, inr (dists_get_params ds fl)).\n"
+            "Proof. intros fuel maxt ds objs fl H Hn. rewrite gen_leaf_get_distribution_params_np. apply (np_leaf_get_distribution_params_eq fuel maxt); assumption. Qed.\n")
+
+
 HEADER = ("(* GENERATED on every run by harness/translate9.py from the Python source of lymph; do not edit *)\n"
           "From LymphModel Require Import Base States Linalg Graph Transition Observation Dist Unilateral Models DistModel Params NumpyParams NumpyDist.\n"
           "Local Open Scope nat_scope.\nLocal Open Scope string_scope.\nLocal Open Scope list_scope.\n\n")
@@ -656,6 +907,10 @@ PIECES = {
                         "lymph/diagnosis_times.py Distribution.get_params (is_updateable)"),
     "dist_set_params": (translate_set_params, ["gen_set_params_eq", "gen_set_params_params"],
                         "lymph/diagnosis_times.py Distribution.set_params (pmf, normalize, is_updateable)"),
+    "leaf_set_dist_params": (translate_leaf_set, "gen_leaf_set_distribution_params_eq",
+                             "lymph/diagnosis_times.py Composite.set_distribution_params (leaf branch)"),
+    "leaf_get_dist_params": (translate_leaf_get, "gen_leaf_get_distribution_params_eq",
+                             "lymph/diagnosis_times.py Composite.get_distribution_params (leaf branch, with utils.flatten)"),
 }
 
 
